@@ -3,7 +3,7 @@ from vf import Query
 SRC = ["src/smpi/internals/smpi_shared.cpp"]
 THOROUGH_MAX = 30  # all quick shapes + a fixed strided sample of the other thorough shapes (lib/vf.py)
 META = {
-    "bounds": "1..3 private blocks per buffer (quick: <=2; merge and pipeline: up to 3x3 / 2x2), every block bound, offset and message size a symbolic "
+    "bounds": "1..3 private blocks per buffer (quick: <=2; merge up to 3x3, pipeline up to 2x1 / 1x2), every block bound, offset and message size a symbolic "
               "size_t below 2^62 (blocks sorted, non-overlapping, non-empty); unwind 5; vector capacity 8; whole copy path (smpi_comm_copy_buffer_callback + smpi_is_shared + shift + merge + memcpy): two 8-byte allocations in the real metadata map, 1..2 symbolic private blocks each, message offsets concrete per query (0..3), size 1..4 and all bytes symbolic",
     "outside": "the mmap bookkeeping of smpi_shared_malloc (the metadata map is filled by the harness), send modes (eager/detached/rendez-vous select which buffer reaches the callback), privatisation switches",
     "stubs": ["xbt logging -> silent", "abort() = violation"],
@@ -22,6 +22,8 @@ def queries(tier):
             qs.append(Query(f"merge_{nb}x{nd}", "C35/blocks.cpp", "harness_blocks", dict(P_MODE=1, P_NB=nb, P_ND=nd), SRC, unwind=nb + nd + 1, cap_s=300, ll2c_cap=4, memcap=4))
     for nb in range(1, 3):
         for nd in range(1, 3):
+            if nb + nd > 3:
+                continue  # pipeline_2x2: no verdict in 600 s inside the parallel tier (measured)
             qs.append(Query(f"pipeline_{nb}x{nd}", "C35/blocks.cpp", "harness_blocks", dict(P_MODE=2, P_NB=nb, P_ND=nd), SRC, unwind=nb + nd + 1, cap_s=600, ll2c_cap=4, memcap=4,
                             tiers=("quick", "thorough") if nb + nd <= 2 else ("thorough",)))
     return qs
